@@ -77,6 +77,10 @@ class FakeSelector:
     def modify(self, fileobj, events, data=None):
         if fileobj not in self.map:
             raise KeyError("not registered")
+        if getattr(fileobj, "closed", False):
+            # what epoll does for a descriptor that was closed while still registered ("Bad file descriptor", seen in the wild
+            # according to the comments in NetworkManager.broadcast_message)
+            raise OSError(9, "Bad file descriptor")
         self.map[fileobj] = selectors.SelectorKey(fileobj, fileobj.fileno(), events, data)
         return self.map[fileobj]
 
@@ -255,6 +259,11 @@ class Node:
             pos += 8 + n
         sock.sent = b[pos:]
         return out
+
+    def hard_close(self, name):
+        """Fault: the connection's descriptor dies without the node noticing yet (still registered with the selector)."""
+        peer, sock = self.peers[name]
+        sock.closed = True
 
     def is_open(self, name):
         peer, sock = self.peers[name]
